@@ -88,6 +88,12 @@ def inject(c, fault, meth):
     elif fault == 'horizon_in_ode':
         c.x3 = st.state(); st.set_der(c.x3, c.u * st.T)
     elif fault == 'roots_shooting': st.subject_to(c.x <= 7, grid='integrator_roots')
+    elif fault == 'alg_explicit_euler':
+        st.method((MultipleShooting if meth == 'MS' else SingleShooting)(N=2, intg='expl_euler'))
+        c.z = st.algebraic(); st.add_alg(c.z - 2 * c.x)
+    elif fault == 'false_after_fill':
+        # false only once the (fixed) horizon is written in: T = 1
+        st.subject_to(st.T <= 0.5)
     elif fault == 'inf_no_guarantee':
         st.method((MultipleShooting if meth == 'MS' else SingleShooting)(N=2, intg='expl_euler'))
         st.subject_to(c.x <= 7, grid='inf')
